@@ -1,7 +1,7 @@
 (* C03 end to end, depth 1: for every flat history (Model/TreeFlat.v) hdf5.Open on tree_image returns the root with exactly
    flat_nodes: the composition of FlatInv preservation (Proofs/TreeImageFlatStep.v) with the reader theorem
    (Proofs/TreeImageFlatRead.v flat_open, an instance of open_depth1). *)
-From HV Require Import Base.Prelude Base.Outcome Base.Bytes Model.GroupWire.
+From HV Require Import Base.Prelude Base.Outcome Base.Bytes Model.GroupWire Model.CodecOhdr.
 From HV Require Import Model.IOProg Model.IOProgReader Model.IOProgOpen.
 From HV Require Import Model.FileImage Model.TreeImage Model.TreeFlat.
 From HV Require Import Proofs.TreeImageOpen Proofs.TreeImagePlaced Proofs.TreeImageFlat Proofs.TreeImageFlatStep Proofs.TreeImageFlatRead.
@@ -61,4 +61,41 @@ Proof.
     split; [right; vm_compute; repeat split; reflexivity|].
     split; [left; vm_compute; reflexivity|]. split; [left; vm_compute; reflexivity|]. split; [left; vm_compute; reflexivity|]. exact I. }
   vm_compute. repeat split; try reflexivity; discriminate.
+Qed.
+
+(* ------------------------------------------------------------------ refused calls leave the state as it is *)
+(* whatever makes checkLinkable (prepare_link) refuse - empty name or NUL, unknown parent, duplicate name, full heap, full node -
+   the creation returns false and the state (file and fw.groups) is unchanged *)
+Theorem group_refused_unchanged st p :
+  (forall x, prepare_link st (fst (NS.parse_path (NS.trim_suffix_slash p))) (snd (NS.parse_path (NS.trim_suffix_slash p))) 0 <> Ok x) ->
+  t_step st (TGroup p) = (st, false).
+Proof.
+  intros H. cbn [t_step]. unfold t_create_group. destruct (negb (NS.validate_group_path p)); [reflexivity|].
+  destruct (NS.parse_path (NS.trim_suffix_slash p)) as [parent nm]. cbn [fst snd] in H.
+  destruct (negb (parent_registered st parent)); [reflexivity|].
+  destruct (prepare_link st parent nm 0) as [x| |]; [exfalso; now apply (H x) | reflexivity | reflexivity].
+Qed.
+Theorem dataset_refused_unchanged st p code dims data :
+  (forall x, prepare_link st (fst (NS.parse_path p)) (snd (NS.parse_path p)) 0 <> Ok x) ->
+  t_step st (TDataset p code dims data) = (st, false).
+Proof.
+  intros H. cbn [t_step]. unfold t_create_dataset. destruct (negb (NS.validate_dataset_name p)); [reflexivity|].
+  destruct (NS.parse_path p) as [parent nm]. cbn [fst snd] in H.
+  destruct (prepare_link st parent nm 0) as [x| |]; [exfalso; now apply (H x) | reflexivity | reflexivity].
+Qed.
+(* CreateHardLink: an unknown parent, a target that does not resolve, an unreadable target header, a refused link, or a header
+   without room for the RefCount message: false, state unchanged (nothing has been written yet) *)
+Theorem hardlink_refused_unchanged st p q :
+  (forall t, resolve_addr st q <> Ok t) \/
+  (forall x, prepare_link st (fst (NS.parse_path p)) (snd (NS.parse_path p)) 0 <> Ok x) ->
+  t_step st (THardLink p q) = (st, false).
+Proof.
+  intros H. cbn [t_step]. unfold t_hard_link.
+  destruct (negb (NS.validate_link_path p) || negb (NS.validate_link_path q)); [reflexivity|].
+  destruct (NS.parse_path p) as [parent nm]. cbn [fst snd] in H.
+  destruct (negb (parent_registered st parent)); [reflexivity|].
+  destruct (resolve_addr st q) as [t| |] eqn:ER; cbn [obind]; try reflexivity.
+  destruct (dec_ohdr false (t_file st) t) as [h| |]; cbn [obind]; try reflexivity.
+  destruct (prepare_link st parent nm 0) as [x| |] eqn:EP; cbn [obind]; try reflexivity.
+  destruct H as [H | H]; [exfalso; now apply (H t) | exfalso; now apply (H x)].
 Qed.
